@@ -253,7 +253,15 @@ func c01SizeCache(c *Ctx, a *avlAnchors) {
 				switch {
 				case len(rm) == 0 || flagEdge == "false":
 					// nothing may change, false returned
-					if len(countStores)+len(rootStores) > 0 {
+					// the root may be re-installed from the node-level call's first result (which, reporting false, is the
+					// tree it was handed - inorder-conservation of node.remove); the count may not move
+					rootsOK := true
+					for _, rs := range rootStores {
+						if !(len(rm) == 1 && rs.Val.Key() == (&Term{Op: "extract", Args: []*Term{rm[0].Res}, N: 0}).Key()) {
+							rootsOK = false
+						}
+					}
+					if len(countStores) > 0 || !rootsOK {
 						ok, why = false, "state is changed on a path where nothing was removed"
 					}
 					if !p.Rets[0].IsConst("false") && !(len(rm) == 1 && p.Rets[0].Key() == (&Term{Op: "extract", Args: []*Term{rm[0].Res}, N: 1}).Key()) {
